@@ -339,6 +339,8 @@ class isoparser(object):
             result = week_1 + timedelta(days=week_offset)
         except OverflowError:
             raise ValueError('Week date out of range')
+        if week == 53 and result.isocalendar()[1] != 53:
+            raise ValueError('Invalid week: {}'.format(week))
         return result
 
     def _parse_isotime(self, timestr):
